@@ -62,14 +62,60 @@ func runCfg(c harness.Cfg) *explore.Result {
 		return crossCheck(c, b)
 	}
 	sc := b(c)
-	e := &explore.Explorer{Sc: sc, Bound: c.Bound, Graph: c.Graph, MaxSt: c.MaxStates}
 	if c.BudgetS == 0 {
 		c.BudgetS = 120
 	}
-	if c.BudgetS > 0 {
-		e.Budget = time.Duration(c.BudgetS) * time.Second
+	budget := time.Duration(c.BudgetS) * time.Second
+	if c.Bound != -1 || c.NoFallback {
+		e := &explore.Explorer{Sc: sc, Bound: c.Bound, Graph: c.Graph, MaxSt: c.MaxStates, Budget: budget}
+		r := e.Run()
+		r.CompletedBound = -1
+		if r.Exhaustive && c.Bound >= 0 {
+			r.CompletedBound = c.Bound
+		}
+		return r
 	}
-	return e.Run()
+	// Unbounded exploration with 60 % of the budget; if it does not finish,
+	// iterative preemption bounding (0, 1, 2, ...) with the rest: a run cut by the
+	// clock covers an arbitrary corner, a completed bound covers every schedule
+	// with at most that many preemptions.
+	start := time.Now()
+	e := &explore.Explorer{Sc: sc, Bound: -1, Graph: c.Graph, MaxSt: c.MaxStates, Budget: budget * 6 / 10}
+	r := e.Run()
+	r.CompletedBound = -1
+	if r.Exhaustive || r.Violation != nil || r.InfraError != "" || !r.BudgetHit {
+		return r
+	}
+	for k := 0; k <= 8; k++ {
+		left := budget - time.Since(start)
+		if left < 2*time.Second {
+			break
+		}
+		be := &explore.Explorer{Sc: b(c), Bound: k, MaxSt: c.MaxStates, Budget: left}
+		br := be.Run()
+		r.States += br.States
+		r.Transitions += br.Transitions
+		r.Executions += br.Executions
+		for o, n := range br.Outcomes {
+			r.Outcomes[o] += n
+		}
+		if br.Violation != nil || br.InfraError != "" {
+			r.Violation, r.InfraError = br.Violation, br.InfraError
+			break
+		}
+		if !br.Exhaustive {
+			r.BoundRuns = append(r.BoundRuns, fmt.Sprintf("bound %d: cut by the clock after %d states", k, br.States))
+			break
+		}
+		r.CompletedBound = k
+		r.BoundRuns = append(r.BoundRuns, fmt.Sprintf("bound %d: complete, %d states, %d alternatives beyond the bound", k, br.States, be.Skipped))
+		if be.Skipped == 0 {
+			r.Exhaustive = true // nothing was cut by the bound: the exploration is complete
+			break
+		}
+	}
+	r.WallS = time.Since(start).Seconds()
+	return r
 }
 
 func replay(file string) int {
